@@ -13,7 +13,15 @@
      - the Receive that meets the handler's terminator reports the handler's
        outcome;
      - CloseResponse closes the response body whenever there is a response,
-       also when draining it fails.
+       also when draining it fails;
+     - progress of the library's own waits (Progress.v): a Read blocked on
+       responseReady always has an enabled request-goroutine step ahead of it,
+       two such steps make it ready whatever Do returns, and a rank that nothing
+       raises witnesses it; a Write never engages a pipe whose read side is
+       closed; the context watcher lives while both pipe ends are open, so a
+       cancellation always closes the pipe; after CloseRequest or cancellation
+       the library's goroutines run to a quiescent state in which no goroutine
+       step is enabled, for ever.
 
    NOT exhibited by the model (named): blocking and wake-ups themselves — a
    pipe write waiting for net/http to read, Read waiting for responseReady, the
@@ -24,7 +32,7 @@
    each call, a Close counter on response bodies, and a delay injected at every
    single yield point of the duplex call (every pair in the thorough tier). *)
 From Coq Require Import List NArith Bool.
-From Connect Require Import Bytes Generated Duplex Call.
+From Connect Require Import Bytes Generated Duplex Call Progress.
 Import ListNotations.
 
 Theorem response_published_before_read : forall es b,
@@ -81,6 +89,73 @@ Theorem close_response_closes_body : forall s rest,
   body_closes (fst (step s (UCloseRead rest))) = S (body_closes s).
 Proof. exact close_read_closes_body. Qed.
 Print Assumptions close_response_closes_body.
+
+(* ---- progress: the waits that are the library's own, not the peer's ---- *)
+
+(* a Read blocked on responseReady has an enabled request-goroutine step that
+   lowers a rank which nothing ever raises *)
+Theorem blocked_read_progress : forall s b,
+  started s = true -> snd (step s (URead b)) = OBlocked ->
+  (returned s = false /\ forall r, ready_rank (fst (step s (GDo r))) < ready_rank s) \/
+  (returned s = true /\ ready_rank (fst (step s GReady)) < ready_rank s).
+Proof. exact blocked_read_progress_lemma. Qed.
+Print Assumptions blocked_read_progress.
+
+Theorem rank_monotone : forall s e, ready_rank (fst (step s e)) <= ready_rank s.
+Proof. exact rank_never_increases. Qed.
+Print Assumptions rank_monotone.
+
+(* wherever the goroutine's two steps fall in a history, and whatever Do
+   returns, they make the response ready for good *)
+Theorem ready_after_goroutine_steps : forall es1 es2 es3 r s,
+  started s = true ->
+  ready (fst (run s (es1 ++ GDo r :: es2 ++ GReady :: es3))) = true.
+Proof. exact ready_after_goroutine_steps_lemma. Qed.
+Print Assumptions ready_after_goroutine_steps.
+
+Theorem write_never_engages_closed_pipe : forall es s,
+  pipe_r_closed s = true -> snd (step (fst (run s es)) UWrite) <> OOk.
+Proof. exact write_never_engages_closed_pipe_lemma. Qed.
+Print Assumptions write_never_engages_closed_pipe.
+
+(* the context watcher lives as long as the call is started and both ends of
+   the request pipe are open ... *)
+Theorem watcher_alive_while_pipe_open : forall es,
+  let s := final es in
+  started s = true -> pipe_r_closed s = false -> pipe_w_closed s = false -> watching s = true.
+Proof. exact watcher_alive_while_pipe_open_lemma. Qed.
+Print Assumptions watcher_alive_while_pipe_open.
+
+(* ... so the end of the context is acted upon: the pipe is closed (which is
+   what releases a blocked pipe write and the transport's blocked body read) *)
+Theorem cancellation_closes_pipe : forall s k,
+  watching s = true -> ctx s = Some k ->
+  let s' := fst (step s GWatchCtx) in
+  pipe_r_closed s' = true /\ watching s' = false /\
+  (derr s = None -> derr s' = Some (Coded (ctx_code k))) /\
+  snd (step s' UWrite) = OErr (Coded (ctx_code k)).
+Proof. exact cancellation_closes_pipe_lemma. Qed.
+Print Assumptions cancellation_closes_pipe.
+
+(* a client that closed the request side, or whose context ended, leaves
+   nothing of the library running once its goroutines took their remaining
+   steps — whatever Do returns — and nothing can start again *)
+Theorem finished_call_quiesces : forall s r,
+  started s = true -> (pipe_w_closed s = true \/ ctx s <> None) ->
+  quiescent (fst (run s [GDo r; GReady; GWatchCtx; GWatchExit])).
+Proof. exact finished_call_quiesces_lemma. Qed.
+Print Assumptions finished_call_quiesces.
+
+Theorem quiescent_no_goroutine_step : forall s,
+  quiescent s ->
+  (forall r, step s (GDo r) = (s, ONone)) /\ step s GReady = (s, ONone) /\
+  step s GWatchCtx = (s, ONone) /\ step s GWatchExit = (s, ONone).
+Proof. exact quiescent_no_goroutine_step_lemma. Qed.
+Print Assumptions quiescent_no_goroutine_step.
+
+Theorem quiescent_stable : forall es s, quiescent s -> quiescent (fst (run s es)).
+Proof. exact quiescent_stable_lemma. Qed.
+Print Assumptions quiescent_stable.
 
 (* the atomic-event reading is justified by these facts about the source *)
 Theorem duplex_shared_state_synchronised :
